@@ -26,7 +26,8 @@ Proof.
   - destruct (find_track t (tracks tl)) as [tr|].
     + pose proof (track_update_now cfg tl tr s q d count) as H.
       destruct (track_update cfg tl tr s q d count) as [tl1 tr1]. simpl in *. exact H.
-    + pose proof (track_update_now cfg tl (new_track t None true None) s q d count) as H.
+    + destruct (t <? next_id tl)%nat; [|reflexivity].
+      pose proof (track_update_now cfg tl (new_track t None true None) s q d count) as H.
       destruct (track_update cfg tl (new_track t None true None) s q d count) as [tl1 tr1]. simpl in *. exact H.
   - destruct (find_track t (tracks tl)); simpl; [apply remove_track_now|reflexivity].
   - apply clear_now.
